@@ -38,11 +38,14 @@ Example C11_example :
   end = true.
 Proof. vm_compute. reflexivity. Qed.
 
-(* ---------- the grammar side for seven clauses, any number, subset and order ---------------------------------------------------------------
+(* ---------- the grammar side for fifteen clauses, any number, subset and order -------------------------------------------------------------
    For EVERY statement  CREATE TABLE ... ( columns [, table-level clauses] )  clause*  with
-     clause = TABLESPACE n | STORED AS f | LOCATION 'p' | ENGINE = e | COMMENT = 'c' | USING f | IN n
-   (any number, any subset, any order, repetitions included; TABLESPACE x directly followed by IN is excluded: the grammar reads
-   that pair as one clause) the model — real keyword tables and flag logic, real LALR tables (276-configuration invariant),
+     clause = TABLESPACE n | STORED AS f | LOCATION 'p' | ENGINE = e | COMMENT = 'c' | USING f | IN n | ROW FORMAT SERDE 'class' |
+              ROW FORMAT word | word TERMINATED BY 'c' (FIELDS, LINES ...) | COLLECTION ITEMS TERMINATED BY 'c' |
+              MAP KEYS TERMINATED BY 'c' | COMMENT 'text' | word word (DISTSTYLE EVEN ...) | INTO n BUCKETS
+   (any number, any subset, any order, repetitions included; TABLESPACE x directly followed by IN or by a plain word is excluded:
+   the grammar reads that as one tablespace clause with properties) the model — real keyword tables and flag logic, real LALR
+   tables (324-configuration invariant),
    modelled actions — returns the entity of the clause-free statement with, for every clause in order, the clause's key set to
    the clause's value ([Table.denote_x]). *)
 Theorem C11_clauses_after_the_table_exact : forall tx norm silent, Table.wf_x norm tx = true ->
@@ -52,18 +55,18 @@ Print Assumptions C11_clauses_after_the_table_exact.
 
 (* orthogonality at the parser stage: a clause sets its own key to its declared value ... *)
 Theorem C11_clause_sets_its_key : forall norm d c,
-  dict_get (Table.clause_apply norm d c) (Table.clause_key c) = Some (Table.clause_value norm c).
+  dict_get (Table.clause_apply norm d c) (Table.clause_key norm c) = Some (Table.clause_value norm c).
 Proof. exact TableClauseProofs.clause_sets_its_key. Qed.
 Print Assumptions C11_clause_sets_its_key.
 (* ... the table body and every other clause's key are untouched by any list of clauses that do not own the key ... *)
-Theorem C11_clauses_keep_the_body : forall norm k cl d, Forall (fun c => Table.clause_key c <> k) cl ->
+Theorem C11_clauses_keep_the_body : forall norm k cl d, Forall (fun c => Table.clause_key norm c <> k) cl ->
   dict_get (fold_left (Table.clause_apply norm) cl d) k = dict_get d k.
 Proof. exact TableClauseProofs.clauses_keep_the_body. Qed.
 Print Assumptions C11_clauses_keep_the_body.
 (* ... and a clause's value is reported whatever comes before it and whatever clauses with OTHER keys come after it *)
 Theorem C11_clause_value_reported : forall norm before c after d,
-  Forall (fun c' => Table.clause_key c' <> Table.clause_key c) after ->
-  dict_get (fold_left (Table.clause_apply norm) (before ++ c :: after) d) (Table.clause_key c) = Some (Table.clause_value norm c).
+  Forall (fun c' => Table.clause_key norm c' <> Table.clause_key norm c) after ->
+  dict_get (fold_left (Table.clause_apply norm) (before ++ c :: after) d) (Table.clause_key norm c) = Some (Table.clause_value norm c).
 Proof. exact TableClauseProofs.clause_value_reported. Qed.
 Print Assumptions C11_clause_value_reported.
 
@@ -82,6 +85,26 @@ Example C11_clauses_example :
   | Ok d => match parse_statement false false ex_tx_text with Ok (Some v) => Output.pyval_eqb v (PDict d) | _ => false end
             && Output.pyval_eqb (get_or_none d "engine") (PStr "InnoDB") && Output.pyval_eqb (get_or_none d "location") (PStr "'s3://b/p'")
             && Output.pyval_eqb (get_or_none d "primary_key") (PList [PStr "a"])
+  | _ => false
+  end = true.
+Proof. vm_compute. repeat split. Qed.
+
+(* non-vacuity for the Hive / Redshift clauses: a delimited text table *)
+Definition ex_tx2 : Table.tablex :=
+  Table.mkTableX
+    (Table.mkTableC (Table.mkTable "CREATE" "TABLE" None "t" (Table.mkCol "a" "int" None None []) []) [])
+    [Table.CRowWord "ROW" "format" "DELIMITED"; Table.CTerm "FIELDS" "TERMINATED" "by" "','"; Table.CTerm "lines" "terminated" "BY" "'\n'";
+     Table.CColl "COLLECTION" "ITEMS" "TERMINATED" "BY" "'|'"; Table.CMapKeys "MAP" "KEYS" "TERMINATED" "BY" "':'";
+     Table.CCommentStr "COMMENT" "'tbl'"; Table.CGen "DISTSTYLE" "EVEN"; Table.CInto "INTO" "4" "BUCKETS";
+     Table.CRowSerde "row" "FORMAT" "SERDE" "'my.Serde'"].
+Example C11_clauses_example2 :
+  Table.wf_x false ex_tx2 = true /\
+  match Table.denote_x false ex_tx2 with
+  | Ok d => Output.pyval_eqb (get_or_none d "fields_terminated_by") (PStr "','") && Output.pyval_eqb (get_or_none d "lines_terminated_by") (PStr "'\n'")
+            && Output.pyval_eqb (get_or_none d "collection_items_terminated_by") (PStr "'|'") && Output.pyval_eqb (get_or_none d "map_keys_terminated_by") (PStr "':'")
+            && Output.pyval_eqb (get_or_none d "comment") (PStr "'tbl'") && Output.pyval_eqb (get_or_none d "DISTSTYLE") (PStr "EVEN")
+            && Output.pyval_eqb (get_or_none d "into_buckets") (PStr "4")
+            && Output.pyval_eqb (get_or_none d "row_format") (PDict [("serde", PBool true); ("java_class", PStr "'my.Serde'")])
   | _ => false
   end = true.
 Proof. vm_compute. repeat split. Qed.
